@@ -16,8 +16,8 @@ VERIF = os.path.dirname(os.path.dirname(os.path.abspath(__file__)))
 PY = '/venv/bin/python'
 
 MODES = {
-    'C04': ['small', 'flow', 'project'], 'C09': ['main', 'chain'], 'C14': ['sequences', 'random'],
-    'C15': ['main', 'exh'], 'C16': ['main', 'launchfail'], 'C17': ['flow', 'project'],
+    'C04': ['small', 'flow', 'project', 'heavy', 'shape'], 'C09': ['main', 'chain'], 'C14': ['sequences', 'random'],
+    'C15': ['main', 'exh', 'reconf'], 'C16': ['main', 'launchfail'], 'C17': ['flow', 'project'],
 }
 
 CHILD = r'''
